@@ -55,7 +55,7 @@ def _weval(task):
     prefix = cfg["prefix"]
     a = ref.alphabet(s)
     hres, pres = _srv.expand(prefix + hist, [ev for (_, ev) in a], False)
-    out = {"viol": [], "succ": [], "soft": [], "outc": set(), "err": None, "probes": 0, "accepted": 0, "refused": 0,
+    out = {"viol": [], "succ": [], "soft": [], "softmsg": {}, "outc": set(), "err": None, "probes": 0, "accepted": 0, "refused": 0,
            "soft_mismatch": 0, "display_checks": 0, "finish_probes": 0, "learn": None}
     if not hres or not hres.get("ok"):
         out["err"] = "history replay diverged (nondeterminism?): %r on %r" % (hres, short_hist(hist))
@@ -113,6 +113,9 @@ def _weval(task):
             legal = s2 is not None
             if legal != r.ok:
                 out["soft_mismatch"] += 1
+                import re as _re2
+                mk = ("enabled-but-refused: " if legal else "disabled-but-accepted: ") + _re2.sub(r"[0-9]+", "N", (r.msg or "")[:80])
+                out["softmsg"][mk] = out["softmsg"].get(mk, 0) + 1
                 if len(out["soft"]) < 2:
                     out["soft"].append({"history": short_hist(hist), "event": ev.short(), "model_enabled": legal,
                                         "emulator": r.status, "msg": r.msg})
@@ -225,6 +228,7 @@ class Explorer:
                       "soft_mismatch": 0, "abstraction_splits": 0, "display_checks": 0,
                       "finish_probes": 0, "depth": 0, "outcomes": 0}
         self.soft_samples = []
+        self.soft_classes = {}
         self.outcomes = set()
         self.finish_hook = None  # fn(state, history, PRes) -> list of (kind, text)
         self.states_by_depth = []
@@ -295,6 +299,8 @@ class Explorer:
                 for x in out["soft"]:
                     if len(self.soft_samples) < 8:
                         self.soft_samples.append(x)
+                for mk, n in out.get("softmsg", {}).items():
+                    self.soft_classes[mk] = self.soft_classes.get(mk, 0) + n
                 if out["learn"] and hasattr(ref, "learn_map"):
                     ref.learn_map.update(out["learn"])
                 for (kind, label, h, ev, detail, st) in out["viol"]:
@@ -332,6 +338,7 @@ class Explorer:
         st = dict(self.stats)
         st["states_by_depth"] = self.states_by_depth
         st["soft_samples"] = self.soft_samples
+        st["soft_classes"] = self.soft_classes
         st["distinct_outcomes"] = sorted(map(str, self.outcomes))[:60]
         ctx.part(self.name, **st)
         return self.stats
